@@ -317,7 +317,8 @@ class ParserEngine(ParserCore, CanParse):
                 break
 
             expression = trim(expression)
-            with suppress(ValueError, SyntaxError):
+            # NOTE literal_eval() raises TypeError for `{{1}}` (a set in a set)
+            with suppress(ValueError, SyntaxError, TypeError):
                 result = stdlib_ast.literal_eval(expression.strip())
                 assert result is not Undefined
                 continue
